@@ -44,6 +44,11 @@ THEOREMS = [
     "Marwood.Proofs.C07.failed_idle",
     "Marwood.Proofs.C07.sp_zero_between_evaluations_verified",
     "Marwood.Proofs.C07.balanced_sp",
+    "Marwood.Vm.Concrete.concreteLaws",
+    "Marwood.Vm.Concrete.cgc_gcLaws",
+    "Marwood.Proofs.C07.balanced_at",
+    "Marwood.Proofs.C07.failed_idle_at",
+    "Marwood.Proofs.C07.sp_zero_between_evaluations_concrete",
 ]
 
 
